@@ -71,7 +71,8 @@ func newJudge(x *h.Ctx) func(p *prog.Program, ops []prog.Op, b *crash.Boundary, 
 			nCalled++
 		}
 		// a rotation has completed when the next numbered log file has been created: the previous file was flushed and closed before
-		if b.Last.Op == "create" && walFile.MatchString(b.Last.Path) && !(nCalled > nRet && ops[nRet].Kind == "open") {
+		// (or has been given its name: a file may be set up under a temporary name first)
+		if ((b.Last.Op == "create" && walFile.MatchString(b.Last.Path)) || (b.Last.Op == "rename" && walFile.MatchString(b.Last.Path2))) && !(nCalled > nRet && ops[nRet].Kind == "open") {
 			must = nRet
 		}
 		// a clean Close (or a completed Open) makes everything acknowledged so far durable
